@@ -343,10 +343,11 @@ Definition clause_merge (a b r : robs) : list tok :=
 Definition doc_defaults : list (bytes * value) :=
   [(bs "telemetry.sdk.language", VStr (bs "cpp"));
    (bs "telemetry.sdk.name", VStr (bs "opentelemetry"));
-   (bs "telemetry.sdk.version", VStr (match c18_default_attrs with
-                                      | [_; _; (_, ver)] => nb ver
-                                      | _ => []
-                                      end))].
+   (bs "telemetry.sdk.version",
+    VStr (match find (fun kv => bytes_eqb (nb (fst kv)) (bs "telemetry.sdk.version")) c18_default_attrs with
+          | Some (_, ver) => nb ver      (* OPENTELEMETRY_SDK_VERSION as the sources define it now *)
+          | None => []
+          end))].
 
 Definition starts_with (p s : bytes) : bool := match strip_prefix p s with Some _ => true | None => false end.
 
